@@ -246,7 +246,7 @@ def parse_log(path, wanted_ids=None):
     return recs, order
 
 
-def run_shard(binary, cases, tag='x', per_case_timeout=20.0, extra_args=(), env=None, min_batch_timeout=60.0):
+def run_shard(binary, cases, tag='x', per_case_timeout=60.0, extra_args=(), env=None, min_batch_timeout=120.0):
     """Run the cases in one driver process, restarting after a crash/hang.  Returns {id: Record}."""
     sd = _scratch(tag)
     out = {}
@@ -265,16 +265,30 @@ def run_shard(binary, cases, tag='x', per_case_timeout=20.0, extra_args=(), env=
             with open(cf, 'w', encoding='utf-8', errors='surrogatepass') as f:
                 for c in pending:
                     f.write(c.render())
-            tmo = max(min_batch_timeout, per_case_timeout * 3 + 0.02 * len(pending) * per_case_timeout)
             with open(os.path.join(sd, 'e%d.txt' % attempt), 'wb') as ef:
                 p = subprocess.Popen([binary, cf, lf] + list(extra_args), stdout=subprocess.DEVNULL, stderr=ef, env=e, stdin=subprocess.DEVNULL)
                 hung = False
-                try:
-                    p.wait(timeout=tmo)
-                except subprocess.TimeoutExpired:
-                    hung = True
-                    p.kill()
-                    p.wait()
+                # watchdog on *progress*: the driver flushes the log at the start and end of every case, so a log that
+                # does not grow for per_case_timeout seconds means the current case is stuck (start-up gets extra time)
+                last_size, last_t, started = -1, time.time(), time.time()
+                while True:
+                    try:
+                        p.wait(timeout=0.5)
+                        break
+                    except subprocess.TimeoutExpired:
+                        pass
+                    try:
+                        sz = os.path.getsize(lf)
+                    except OSError:
+                        sz = 0
+                    now = time.time()
+                    if sz != last_size:
+                        last_size, last_t = sz, now
+                    elif now - last_t > (per_case_timeout if sz > 0 else max(per_case_timeout, min_batch_timeout)):
+                        hung = True
+                        p.kill()
+                        p.wait()
+                        break
             err = open(os.path.join(sd, 'e%d.txt' % attempt), 'r', errors='replace').read()
             recs, order = parse_log(lf)
             if '__global__' in recs and recs['__global__'].complete:
@@ -319,8 +333,10 @@ def run_shard(binary, cases, tag='x', per_case_timeout=20.0, extra_args=(), env=
     return out
 
 
-def run_cases(binary, cases, shards=None, tag='x', per_case_timeout=20.0, extra_args=(), env=None):
-    """Shard cases over processes of the driver `binary` (from build.ensure).  Returns {id: Record}."""
+def run_cases(binary, cases, shards=None, tag='x', per_case_timeout=60.0, extra_args=(), env=None, rerun_hangs=True):
+    """Shard cases over processes of the driver `binary` (from build.ensure).  Returns {id: Record}.
+    A case that trips the watchdog is re-run once alone with three times the budget; only if it trips again is it
+    returned as a hang (wall-clock alone never decides)."""
     shards = shards or NCPU
     cases = list(cases)
     if not cases:
@@ -336,7 +352,18 @@ def run_cases(binary, cases, shards=None, tag='x', per_case_timeout=20.0, extra_
                     res.setdefault('__exit__:%s' % len(res), v)
                 else:
                     res[k] = v
+    if rerun_hangs:
+        byid = dict((c.id, c) for c in cases)
+        for k in [k for k, v in res.items() if v.hang and not v.crash and k in byid]:
+            again = run_shard(binary, [byid[k]], tag + 'h', per_case_timeout * 3, extra_args, env)
+            r2 = again.get(k)
+            if r2 is not None and r2.complete and not r2.hang:
+                res[k] = r2
+                WATCHDOG_FALSE_ALARMS.append(k)
     return res
+
+
+WATCHDOG_FALSE_ALARMS = []
 
 
 # ---------------------------------------------------------------------------------------------------
